@@ -41,15 +41,18 @@ REQUIRED_THEOREMS = [
     ).split()
 ]
 RULE = (
-    "cases = universe in {self-keyed str, tuple + key fn, keyed spec class, unhashable list + key fn, ambiguous int//10} x "
-    "typed/untyped x enforce_item_equivalence on/off x initial set x op sequence. Exhaustive part: every single operation "
-    "(add/discard/remove/contains/[]/get over every value of the universe incl. keys-as-arguments, ill-typed and unkeyable "
-    "values; pop/clear/len/iter/keys/items; | & - ^ and reflected, rebinding, <= < >= > == isdisjoint and reflected, "
+    "cases = universe in {self-keyed str, tuple + key fn x[0], keyed spec class, unhashable list + key fn x[0], ambiguous int "
+    "with key x//10, lists/tuples keyed by len} x typed/untyped x enforce_item_equivalence on/off x initial set x op sequence. "
+    "Every universe's well-typed pool contains FALSY items and/or FALSY keys ('' item+key, ('',p) / ['',p] / It('',p) with key '', "
+    "spec items made falsy by __bool__, int 0 with key 0, [] and () with key 0), plus ill-typed items (incl. falsy ones: 0, ()), "
+    "items with an ill-typed (incl. falsy) key, keys used as arguments, unkeyable values and a value on which the key function "
+    "raises IndexError. Exhaustive part: every single operation (add/discard/remove/contains/[]/get over every value of the "
+    "universe; pop/clear/len/iter/keys/items; | & - ^ and reflected, rebinding, <= < >= > == isdisjoint and reflected, "
     "|= &= -= ^= incl. self-aliased, against KeyedSet (both flags, typed/untyped), built-in set and list operands of <= 2 "
-    "elements) from every initial set of <= N items with distinct keys (3 keys x 2-3 payloads; quick: N=1 all ops + 3 sets of 2 items "
-    "with a sample of the operand ops; thorough: N=2, all ops for N<=1 and all value ops + half of the operand ops for N=2), "
-    "rebinding ops followed by adds that probe key function/flag/type of the new set; then seeded random sequences of <= 20 ops "
-    "(quick 8000, thorough 20000). A step is non-trivial when it changed the "
+    "elements incl. two unequal items under one falsy key) from every initial set of <= N items with distinct keys (quick: N=1 "
+    "all ops + 3 sets of 2 items with a sample of the operand ops; thorough: N=2, all ops for N<=1 and all value ops + a third of "
+    "the operand ops for N=2), rebinding ops followed by adds that probe key function/flag/type of the new set; then seeded "
+    "random sequences of <= 20 ops (quick 8000, thorough 20000). A step is non-trivial when it changed the "
     "set, raised, returned a non-empty set / a hit; distinct = distinct (universe, typed, enforce, pre-state, op)"
 )
 EXHAUSTIVE = {"quick": False, "thorough": False}
@@ -115,6 +118,7 @@ def setup():
     _It = It
     _KeyedSet = KeyedSet
     _BaseTypeError = BaseTypeError
+    _TIMEOUTS[0] = 0
     _sanity()
 
 
@@ -421,16 +425,26 @@ def _can_loop(op):
     return op[0] in ("clear", "inplaceSelf") or (op[0] == "inplace" and op[2][0] == "self")
 
 
+_TIMEOUTS = [0]
+
+
 def perform_guarded(u, s, op):
-    """`perform_full`, with a 2 s limit on the operations that run CPython's unbounded `clear` loop"""
+    """`perform_full`, with a 2 s limit on the operations that run CPython's unbounded `clear` loop; once 20 of them
+    have timed out (the code under test is broken) the remaining ones are reported as timed out without being run"""
     if not _can_loop(op):
         return perform_full(u, s, op)
     import signal
+
+    if _TIMEOUTS[0] >= 20:
+        raise OpTimeout()
 
     old = signal.signal(signal.SIGALRM, _on_alarm)
     signal.setitimer(signal.ITIMER_REAL, 2.0)
     try:
         return perform_full(u, s, op)
+    except OpTimeout:
+        _TIMEOUTS[0] += 1
+        raise
     finally:
         signal.setitimer(signal.ITIMER_REAL, 0)
         signal.signal(signal.SIGALRM, old)
@@ -660,6 +674,13 @@ def _check_invariants(u, s, typed_expected, where, viol):
 
 
 def oracle(case):
+    try:
+        return _oracle(case)
+    except Exception as e:  # the set is in a state the reference checker cannot even interpret
+        return [f"reference checker failed on the observed behaviour: {type(e).__name__}: {e}"]
+
+
+def _oracle(case):
     u, typed, enforce = case["universe"], case["typed"], case["enforce"]
     viol = []
     ref = Ref(u, typed, enforce)
@@ -753,7 +774,7 @@ def oracle(case):
                     pass  # junk argument: any refusal is acceptable, checked unchanged below
                 elif expect_ok():
                     if k is not None:
-                        del ref.d[k]
+                        ref.d.pop(k, None)
         elif name == "pop":
             if not ref.d:
                 expect_raise({"KeyError"})
@@ -765,7 +786,7 @@ def oracle(case):
                 if ref.ambiguous(x):
                     resync_needed[0] = True
                 elif k is not None:
-                    del ref.d[k]
+                    ref.d.pop(k, None)
         elif name == "clear":
             if any(ref.ambiguous(v) for v in ref.d.values()):
                 resync_needed[0] = True
@@ -1160,7 +1181,7 @@ def gen_cases(tier, rng):
                             ops_all, min(len(ops_all), 300 if len(st) else 60)
                         )
                     elif len(st) == 2:
-                        keep = max(1, len(ops_all) // 2)
+                        keep = max(1, len(ops_all) // 3)
                         ops = [o for o in ops_all if o[0] in ARG_OPS or len(o) == 1] + rng.sample(ops_all, keep)
                     for op in ops:
                         tail = READS if op[0] in ("rebind", "inplace", "inplaceSelf") else []
